@@ -141,6 +141,19 @@ CHECKS = {
              "Trace_Sys from the reader's @group / @system blocks.",
         design_ref="DESIGN.md section 3, C14",
         note="Irrational base factors (fractional powers, Planck / atomic compounds overflowing exact arithmetic) are compared on the container only."),
+    "C15": dict(
+        technique="TLA+ spec (Rewrite: post-conditions and the library's reduce / compact procedures) model-checked with TLC; TLC states replayed on real registries; helper calls over the bundled registry validated by the TLC trace spec Trace_Rewrite",
+        text="TLC checks that the transcribed nested loop of to_reduced_units, over all containers of up to three of seven units, ends without a mergeable "
+             "pair, keeps the dimensionality, only merges and is idempotent, and that the prefix choice of to_compact over 3 mantissas x 73 decades x 5 unit "
+             "exponents is an available power which, for a first-power leading unit, brings the magnitude into [1, 1000); reduce states are replayed "
+             "(to_ and ito_ form: same container as the model, same value, operands untouched), compact states are replayed with exact Fraction magnitudes "
+             "on the bundled registry (chosen prefix = the model's); 500 (thorough 2500) random quantities x {to_root_units, to_base_units, "
+             "to_reduced_units, to_compact} x 6 default systems are logged with input and output and Trace_Rewrite checks dimensionality, physical value "
+             "(fingerprints), root-only / no mergeable pair / single prefix change; special magnitudes (0, NaN, +-inf, unitless, ufloat) and "
+             "auto_reduce_dimensions registries are checked relationally.",
+        design_ref="DESIGN.md section 3, C15",
+        note="Exact decade boundaries are excluded (the library decides them with a floating-point logarithm); to_preferred needs the optional mip "
+             "solver and is only exercised when importable."),
     "C04": dict(
         technique="TLA+ spec (UnitAlgebra, LinAlg) model-checked with TLC; TLC-generated cases replayed into pint; recorded operations validated by a TLC trace spec",
         text="TLC checks exhaustively (3 names, exponents -2..2 and +-1/2, all pairs, all powers, triples) that the operational model of "
